@@ -1,5 +1,692 @@
 import Munge.Model.Base64
 /- Helper lemmas for the C19 theorems. -/
 namespace Munge.Base64
+open Munge.Gen.Base64
+
+/-! ### bit-level facts about sextets (finite case analysis) -/
+
+def hn (b : UInt8) : UInt8 := (b >>> (4 : UInt8)) &&& 0x0f
+def tc (c : UInt8) : UInt8 := (c >>> (6 : UInt8)) &&& 0x03
+
+theorem sx1_eq (a b : UInt8) : sx1 a b = sx1' a ||| hn b := rfl
+theorem sx2_eq (b c : UInt8) : sx2 b c = sx2' b ||| tc c := rfl
+
+set_option maxRecDepth 1000000 in
+theorem hn_fin : ∀ b : Fin 256, ∃ h : Fin 16, hn (UInt8.ofNat b) = UInt8.ofNat h ∧ h.val = b.val / 16 := by
+  decide +kernel
+set_option maxRecDepth 1000000 in
+theorem tc_fin : ∀ c : Fin 256, ∃ t : Fin 4, tc (UInt8.ofNat c) = UInt8.ofNat t ∧ t.val = c.val / 64 := by
+  decide +kernel
+set_option maxRecDepth 1000000 in
+theorem sx1'_fin : ∀ a : Fin 256, ∃ p : Fin 4, sx1' (UInt8.ofNat a) = UInt8.ofNat (16 * p) ∧ p.val = a.val % 4 := by
+  decide +kernel
+set_option maxRecDepth 1000000 in
+theorem sx2'_fin : ∀ b : Fin 256, ∃ k : Fin 16, sx2' (UInt8.ofNat b) = UInt8.ofNat (4 * k) ∧ k.val = b.val % 16 := by
+  decide +kernel
+
+theorem hn_cases (b : UInt8) : ∃ h : Fin 16, hn b = UInt8.ofNat h ∧ h.val = b.toNat / 16 := by
+  have := hn_fin ⟨b.toNat, b.toNat_lt⟩; simpa using this
+theorem tc_cases (c : UInt8) : ∃ t : Fin 4, tc c = UInt8.ofNat t ∧ t.val = c.toNat / 64 := by
+  have := tc_fin ⟨c.toNat, c.toNat_lt⟩; simpa using this
+theorem sx1'_cases (a : UInt8) : ∃ p : Fin 4, sx1' a = UInt8.ofNat (16 * p) ∧ p.val = a.toNat % 4 := by
+  have := sx1'_fin ⟨a.toNat, a.toNat_lt⟩; simpa using this
+theorem sx2'_cases (b : UInt8) : ∃ k : Fin 16, sx2' b = UInt8.ofNat (4 * k) ∧ k.val = b.toNat % 16 := by
+  have := sx2'_fin ⟨b.toNat, b.toNat_lt⟩; simpa using this
+
+/-! reassembly of the three octets from the four sextets -/
+set_option maxRecDepth 1000000 in
+theorem q1_fin : ∀ a : Fin 256, ∀ h : Fin 16,
+    dc0 (sx0 (UInt8.ofNat a)) ||| dc1a (sx1' (UInt8.ofNat a) ||| UInt8.ofNat h) = UInt8.ofNat a := by
+  decide +kernel
+set_option maxRecDepth 1000000 in
+theorem q2_fin : ∀ p : Fin 4, ∀ b : Fin 256, ∀ t : Fin 4,
+    dc1b (UInt8.ofNat (16 * p) ||| hn (UInt8.ofNat b)) ||| dc2a (sx2' (UInt8.ofNat b) ||| UInt8.ofNat t)
+      = UInt8.ofNat b := by
+  decide +kernel
+set_option maxRecDepth 1000000 in
+theorem q3_fin : ∀ k : Fin 16, ∀ c : Fin 256,
+    dc2b (UInt8.ofNat (4 * k) ||| tc (UInt8.ofNat c)) ||| dc3 (sx3 (UInt8.ofNat c)) = UInt8.ofNat c := by
+  decide +kernel
+set_option maxRecDepth 1000000 in
+theorem q1t_fin : ∀ a : Fin 256,
+    dc0 (sx0 (UInt8.ofNat a)) ||| dc1a (sx1' (UInt8.ofNat a)) = UInt8.ofNat a := by
+  decide +kernel
+set_option maxRecDepth 1000000 in
+theorem q2t_fin : ∀ p : Fin 4, ∀ b : Fin 256,
+    dc1b (UInt8.ofNat (16 * p) ||| hn (UInt8.ofNat b)) ||| dc2a (sx2' (UInt8.ofNat b)) = UInt8.ofNat b := by
+  decide +kernel
+
+theorem q1 (a b : UInt8) : dc0 (sx0 a) ||| dc1a (sx1 a b) = a := by
+  obtain ⟨h, hh, -⟩ := hn_cases b
+  rw [sx1_eq, hh]
+  have := q1_fin ⟨a.toNat, a.toNat_lt⟩ h; simpa using this
+theorem q2 (a b c : UInt8) : dc1b (sx1 a b) ||| dc2a (sx2 b c) = b := by
+  obtain ⟨p, hp, -⟩ := sx1'_cases a
+  obtain ⟨t, ht, -⟩ := tc_cases c
+  rw [sx1_eq, sx2_eq, hp, ht]
+  have := q2_fin p ⟨b.toNat, b.toNat_lt⟩ t; simpa using this
+theorem q3 (b c : UInt8) : dc2b (sx2 b c) ||| dc3 (sx3 c) = c := by
+  obtain ⟨k, hk, -⟩ := sx2'_cases b
+  rw [sx2_eq, hk]
+  have := q3_fin k ⟨c.toNat, c.toNat_lt⟩; simpa using this
+theorem q1t (a : UInt8) : dc0 (sx0 a) ||| dc1a (sx1' a) = a := by
+  have := q1t_fin ⟨a.toNat, a.toNat_lt⟩; simpa using this
+theorem q2t (a b : UInt8) : dc1b (sx1 a b) ||| dc2a (sx2' b) = b := by
+  obtain ⟨p, hp, -⟩ := sx1'_cases a
+  rw [sx1_eq, hp]
+  have := q2t_fin p ⟨b.toNat, b.toNat_lt⟩; simpa using this
+
+/-! numeric values of the sextets -/
+set_option maxRecDepth 1000000 in
+theorem sx0_fin : ∀ a : Fin 256, (sx0 (UInt8.ofNat a)).toNat = a.val / 4 := by decide +kernel
+set_option maxRecDepth 1000000 in
+theorem sx3_fin : ∀ c : Fin 256, (sx3 (UInt8.ofNat c)).toNat = c.val % 64 := by decide +kernel
+set_option maxRecDepth 1000000 in
+theorem or1_fin : ∀ p : Fin 4, ∀ h : Fin 16,
+    (UInt8.ofNat (16 * p) ||| UInt8.ofNat h : UInt8).toNat = 16 * p.val + h.val := by decide +kernel
+set_option maxRecDepth 1000000 in
+theorem or2_fin : ∀ k : Fin 16, ∀ t : Fin 4,
+    (UInt8.ofNat (4 * k) ||| UInt8.ofNat t : UInt8).toNat = 4 * k.val + t.val := by decide +kernel
+set_option maxRecDepth 1000000 in
+theorem m1_fin : ∀ p : Fin 4, (UInt8.ofNat (16 * p) : UInt8).toNat = 16 * p.val := by decide +kernel
+set_option maxRecDepth 1000000 in
+theorem m2_fin : ∀ k : Fin 16, (UInt8.ofNat (4 * k) : UInt8).toNat = 4 * k.val := by decide +kernel
+
+theorem sx0_toNat (a : UInt8) : (sx0 a).toNat = a.toNat / 4 := by
+  have := sx0_fin ⟨a.toNat, a.toNat_lt⟩; simpa using this
+theorem sx3_toNat (c : UInt8) : (sx3 c).toNat = c.toNat % 64 := by
+  have := sx3_fin ⟨c.toNat, c.toNat_lt⟩; simpa using this
+theorem sx1'_toNat (a : UInt8) : (sx1' a).toNat = a.toNat % 4 * 16 := by
+  obtain ⟨p, hp, hv⟩ := sx1'_cases a
+  rw [hp, m1_fin p, hv]; omega
+theorem sx2'_toNat (b : UInt8) : (sx2' b).toNat = b.toNat % 16 * 4 := by
+  obtain ⟨k, hk, hv⟩ := sx2'_cases b
+  rw [hk, m2_fin k, hv]; omega
+theorem sx1_toNat (a b : UInt8) : (sx1 a b).toNat = a.toNat % 4 * 16 + b.toNat / 16 := by
+  obtain ⟨p, hp, hv⟩ := sx1'_cases a
+  obtain ⟨h, hh, hw⟩ := hn_cases b
+  rw [sx1_eq, hp, hh, or1_fin p h, hv, hw]; omega
+theorem sx2_toNat (b c : UInt8) : (sx2 b c).toNat = b.toNat % 16 * 4 + c.toNat / 64 := by
+  obtain ⟨k, hk, hv⟩ := sx2'_cases b
+  obtain ⟨t, ht, hw⟩ := tc_cases c
+  rw [sx2_eq, hk, ht, or2_fin k t, hv, hw]; omega
+
+theorem sx0_lt (a : UInt8) : (sx0 a).toNat < 64 := by
+  have := sx0_toNat a; have := a.toNat_lt; omega
+theorem sx1_lt (a b : UInt8) : (sx1 a b).toNat < 64 := by
+  have := sx1_toNat a b; have := b.toNat_lt; omega
+theorem sx2_lt (b c : UInt8) : (sx2 b c).toNat < 64 := by
+  have := sx2_toNat b c; have := c.toNat_lt; omega
+theorem sx3_lt (c : UInt8) : (sx3 c).toNat < 64 := by
+  have := sx3_toNat c; omega
+theorem sx1'_lt (a : UInt8) : (sx1' a).toNat < 64 := by
+  have := sx1'_toNat a; omega
+theorem sx2'_lt (b : UInt8) : (sx2' b).toNat < 64 := by
+  have := sx2'_toNat b; omega
+
+/-! ### table facts -/
+set_option maxRecDepth 1000000 in
+theorem a2b_b2a_fin : ∀ i : Fin 64, a2b (b2a (UInt8.ofNat i)) = UInt8.ofNat i := by decide +kernel
+
+theorem a2b_b2a (x : UInt8) (h : x.toNat < 64) : a2b (b2a x) = x := by
+  have := a2b_b2a_fin ⟨x.toNat, h⟩; simpa using this
+
+set_option maxRecDepth 1000000 in
+theorem a2b_class_fin : ∀ c : Fin 256,
+    (a2b (UInt8.ofNat c)).toNat < 64 ∨ a2b (UInt8.ofNat c) = IGN ∨
+    (a2b (UInt8.ofNat c) = PAD ∧ UInt8.ofNat c = 61) ∨ a2b (UInt8.ofNat c) = ERR := by decide +kernel
+
+theorem a2b_class (ch : UInt8) :
+    (a2b ch).toNat < 64 ∨ a2b ch = IGN ∨ (a2b ch = PAD ∧ ch = 61) ∨ a2b ch = ERR := by
+  have := a2b_class_fin ⟨ch.toNat, ch.toNat_lt⟩; simpa using this
+
+theorem a2b_61 : a2b 61 = PAD := by decide
+
+theorem val_ne (c : UInt8) (h : c.toNat < 64) : c ≠ IGN ∧ c ≠ PAD ∧ c ≠ ERR := by
+  refine ⟨?_, ?_, ?_⟩ <;> intro e <;> rw [e] at h <;> revert h <;> decide
+
+/-! ### single decoder steps -/
+theorem decStep_ign (s : DecSt) (ch : UInt8) (h : a2b ch = IGN) : decStep s ch = s := by
+  simp [decStep, h]
+
+theorem decStep_pad (s : DecSt) (h : s.pad < 2) : decStep s 61 = { s with pad := s.pad + 1 } := by
+  have : PAD ≠ IGN := by decide
+  simp [decStep, a2b_61, h, this]
+
+theorem decStep_val0 (s : DecSt) (ch : UInt8) (h : (a2b ch).toNat < 64) (hp : s.pad = 0) (hi : s.i = 0) :
+    decStep s ch = { s with cur := dc0 (a2b ch), i := 1 } := by
+  obtain ⟨h1, h2, h3⟩ := val_ne _ h
+  simp [decStep, h1, h2, h3, hp, hi]
+theorem decStep_val1 (s : DecSt) (ch : UInt8) (h : (a2b ch).toNat < 64) (hp : s.pad = 0) (hi : s.i = 1) :
+    decStep s ch = { s with out := s.out ++ [s.cur ||| dc1a (a2b ch)], cur := dc1b (a2b ch), i := 2 } := by
+  obtain ⟨h1, h2, h3⟩ := val_ne _ h
+  simp [decStep, h1, h2, h3, hp, hi]
+theorem decStep_val2 (s : DecSt) (ch : UInt8) (h : (a2b ch).toNat < 64) (hp : s.pad = 0) (hi : s.i = 2) :
+    decStep s ch = { s with out := s.out ++ [s.cur ||| dc2a (a2b ch)], cur := dc2b (a2b ch), i := 3 } := by
+  obtain ⟨h1, h2, h3⟩ := val_ne _ h
+  simp [decStep, h1, h2, h3, hp, hi]
+theorem decStep_val3 (s : DecSt) (ch : UInt8) (h : (a2b ch).toNat < 64) (hp : s.pad = 0) (hi : s.i = 3) :
+    decStep s ch = { s with out := s.out ++ [s.cur ||| dc3 (a2b ch)], i := 0 } := by
+  obtain ⟨h1, h2, h3⟩ := val_ne _ h
+  simp [decStep, h1, h2, h3, hp, hi]
+
+theorem decStep_val_err (s : DecSt) (ch : UInt8) (h : (a2b ch).toNat < 64) (hp : 0 < s.pad) :
+    (decStep s ch).err = true := by
+  obtain ⟨h1, h2, h3⟩ := val_ne _ h
+  simp [decStep, h1, h2, h3, hp]
+
+theorem decStep_err (s : DecSt) (ch : UInt8) (h : a2b ch = ERR) : (decStep s ch).err = true := by
+  have h1 : ERR ≠ IGN := by decide
+  have h2 : ERR ≠ PAD := by decide
+  simp [decStep, h, h1, h2]
+
+theorem decStep_pad_err (s : DecSt) (h : 2 ≤ s.pad) : (decStep s 61).err = true := by
+  have h1 : PAD ≠ IGN := by decide
+  have : ¬ s.pad < 2 := by omega
+  have : 0 < s.pad := by omega
+  simp [decStep, a2b_61, *]
+
+/-! ### decoding an encoding -/
+theorem decLoop_cons_ok (s : DecSt) (ch : UInt8) (rest : List UInt8) (h : (decStep s ch).err = false) :
+    decLoop s (ch :: rest) = decLoop (decStep s ch) rest := by
+  simp [decLoop, h]
+
+theorem decLoop_cons_err (s : DecSt) (ch : UInt8) (rest : List UInt8) (h : (decStep s ch).err = true) :
+    decLoop s (ch :: rest) = decStep s ch := by
+  simp [decLoop, h]
+
+/-- one full quantum -/
+theorem decLoop_quantum (out : List UInt8) (cur a b c : UInt8) (rest : List UInt8) :
+    decLoop { i := 0, pad := 0, out := out, cur := cur, err := false }
+      (b2a (sx0 a) :: b2a (sx1 a b) :: b2a (sx2 b c) :: b2a (sx3 c) :: rest)
+    = decLoop { i := 0, pad := 0, out := out ++ [a, b, c], cur := dc2b (sx2 b c), err := false } rest := by
+  have e0 := a2b_b2a _ (sx0_lt a)
+  have e1 := a2b_b2a _ (sx1_lt a b)
+  have e2 := a2b_b2a _ (sx2_lt b c)
+  have e3 := a2b_b2a _ (sx3_lt c)
+  rw [decLoop_cons_ok _ _ _ (by rw [decStep_val0 _ _ (by rw [e0]; exact sx0_lt a) rfl rfl])]
+  rw [decStep_val0 _ _ (by rw [e0]; exact sx0_lt a) rfl rfl]
+  rw [decLoop_cons_ok _ _ _ (by rw [decStep_val1 _ _ (by rw [e1]; exact sx1_lt a b) rfl rfl])]
+  rw [decStep_val1 _ _ (by rw [e1]; exact sx1_lt a b) rfl rfl]
+  rw [decLoop_cons_ok _ _ _ (by rw [decStep_val2 _ _ (by rw [e2]; exact sx2_lt b c) rfl rfl])]
+  rw [decStep_val2 _ _ (by rw [e2]; exact sx2_lt b c) rfl rfl]
+  rw [decLoop_cons_ok _ _ _ (by rw [decStep_val3 _ _ (by rw [e3]; exact sx3_lt c) rfl rfl])]
+  rw [decStep_val3 _ _ (by rw [e3]; exact sx3_lt c) rfl rfl]
+  simp only [e0, e1, e2, e3, q1, q2, q3, List.append_assoc, List.cons_append, List.nil_append]
+
+
+theorem padchar_eq : PADCHAR = 61 := rfl
+
+theorem decLoop_encode (x : List UInt8) : ∀ (out : List UInt8) (cur : UInt8),
+    ∃ s', decLoop { i := 0, pad := 0, out := out, cur := cur, err := false } (encodeBlock x) = s' ∧
+      s'.err = false ∧ (s'.i + s'.pad) % 4 = 0 ∧ s'.out = out ++ x := by
+  fun_induction encodeBlock x with
+  | case1 a b c rest ih =>
+    intro out cur
+    rw [decLoop_quantum]
+    obtain ⟨s', h1, h2, h3, h4⟩ := ih (out ++ [a, b, c]) (dc2b (sx2 b c))
+    exact ⟨s', h1, h2, h3, by simp [h4]⟩
+  | case2 a b =>
+    intro out cur
+    have e0 := a2b_b2a _ (sx0_lt a)
+    have e1 := a2b_b2a _ (sx1_lt a b)
+    have e2 := a2b_b2a _ (sx2'_lt b)
+    rw [decLoop_cons_ok _ _ _ (by rw [decStep_val0 _ _ (by rw [e0]; exact sx0_lt a) rfl rfl])]
+    rw [decStep_val0 _ _ (by rw [e0]; exact sx0_lt a) rfl rfl]
+    rw [decLoop_cons_ok _ _ _ (by rw [decStep_val1 _ _ (by rw [e1]; exact sx1_lt a b) rfl rfl])]
+    rw [decStep_val1 _ _ (by rw [e1]; exact sx1_lt a b) rfl rfl]
+    rw [decLoop_cons_ok _ _ _ (by rw [decStep_val2 _ _ (by rw [e2]; exact sx2'_lt b) rfl rfl])]
+    rw [decStep_val2 _ _ (by rw [e2]; exact sx2'_lt b) rfl rfl]
+    rw [padchar_eq]
+    rw [decLoop_cons_ok _ _ _ (by rw [decStep_pad _ (by simp)])]
+    rw [decStep_pad _ (by simp)]
+    simp [decLoop, e0, e1, e2, q1, q2t]
+  | case3 a =>
+    intro out cur
+    have e0 := a2b_b2a _ (sx0_lt a)
+    have e1 := a2b_b2a _ (sx1'_lt a)
+    rw [decLoop_cons_ok _ _ _ (by rw [decStep_val0 _ _ (by rw [e0]; exact sx0_lt a) rfl rfl])]
+    rw [decStep_val0 _ _ (by rw [e0]; exact sx0_lt a) rfl rfl]
+    rw [decLoop_cons_ok _ _ _ (by rw [decStep_val1 _ _ (by rw [e1]; exact sx1'_lt a) rfl rfl])]
+    rw [decStep_val1 _ _ (by rw [e1]; exact sx1'_lt a) rfl rfl]
+    rw [padchar_eq]
+    rw [decLoop_cons_ok _ _ _ (by rw [decStep_pad _ (by simp)])]
+    rw [decStep_pad _ (by simp)]
+    rw [decLoop_cons_ok _ _ _ (by rw [decStep_pad _ (by simp)])]
+    rw [decStep_pad _ (by simp)]
+    simp [decLoop, e0, e1, q1t]
+  | case4 =>
+    intro out cur
+    simp [decLoop]
+
+theorem decodeBlock_encodeBlock (x : List UInt8) : decodeBlock (encodeBlock x) = (0, x) := by
+  obtain ⟨s', h1, h2, h3, h4⟩ := decLoop_encode x [] 0
+  have : ({} : DecSt) = { i := 0, pad := 0, out := [], cur := 0, err := false } := rfl
+  simp only [decodeBlock, h1, h2, h3, h4]
+  simp
+
+/-! ### encoder: length, append, streaming -/
+theorem encodeBlock_length (x : List UInt8) : (encodeBlock x).length = (x.length + 2) / 3 * 4 := by
+  fun_induction encodeBlock x with
+  | case1 a b c rest ih => simp only [List.length_cons, ih]; omega
+  | case2 a b => simp
+  | case3 a => simp
+  | case4 => simp
+
+theorem encodeBlock_append (p q : List UInt8) (h : p.length % 3 = 0) :
+    encodeBlock (p ++ q) = encodeBlock p ++ encodeBlock q := by
+  fun_induction encodeBlock p with
+  | case1 a b c rest ih =>
+    have : rest.length % 3 = 0 := by simp only [List.length_cons] at h; omega
+    simp [encodeBlock, ih this]
+  | case2 a b => simp at h
+  | case3 a => simp at h
+  | case4 => simp
+
+theorem encodeBlock_take_drop (l : List UInt8) :
+    encodeBlock (l.take (l.length / 3 * 3)) ++ encodeBlock (l.drop (l.length / 3 * 3)) = encodeBlock l := by
+  rw [← encodeBlock_append, List.take_append_drop]
+  rw [List.length_take]; omega
+
+theorem if_take3 (l : List UInt8) :
+    (if l.length ≥ 3 then encodeBlock (l.take (l.length / 3 * 3)) else []) =
+      encodeBlock (l.take (l.length / 3 * 3)) := by
+  by_cases h : l.length ≥ 3
+  · simp [h]
+  · have : l.length / 3 * 3 = 0 := by omega
+    simp [h, this, encodeBlock]
+
+theorem if_drop3 (l : List UInt8) :
+    (if l.length ≥ 3 then l.drop (l.length / 3 * 3) else l) = l.drop (l.length / 3 * 3) := by
+  by_cases h : l.length ≥ 3
+  · simp [h]
+  · have : l.length / 3 * 3 = 0 := by omega
+    simp [h, this]
+
+theorem take3_append (A B : List UInt8) (h : A.length = 3) :
+    (A ++ B).take ((A ++ B).length / 3 * 3) = A ++ B.take (B.length / 3 * 3) := by
+  have : (A ++ B).length / 3 * 3 = A.length + B.length / 3 * 3 := by
+    rw [List.length_append]; omega
+  rw [this, List.take_length_add_append]
+
+theorem drop3_append (A B : List UInt8) (h : A.length = 3) :
+    (A ++ B).drop ((A ++ B).length / 3 * 3) = B.drop (B.length / 3 * 3) := by
+  have : (A ++ B).length / 3 * 3 = A.length + B.length / 3 * 3 := by
+    rw [List.length_append]; omega
+  rw [this, List.drop_length_add_append]
+
+theorem encodeUpdate_spec (x : EncCtx) (src : List UInt8) (h : x.buf.length < 3) :
+    encodeUpdate x src =
+      ({ buf := (x.buf ++ src).drop ((x.buf ++ src).length / 3 * 3) },
+       encodeBlock ((x.buf ++ src).take ((x.buf ++ src).length / 3 * 3))) := by
+  obtain ⟨buf⟩ := x
+  simp only at h
+  unfold encodeUpdate
+  by_cases h0 : src.length = 0
+  · have : src = [] := List.eq_nil_of_length_eq_zero h0
+    subst this
+    have : buf.length / 3 * 3 = 0 := by omega
+    simp [this, encodeBlock]
+  · simp only [h0, if_false]
+    by_cases hf : buf.length > 0 ∧ src.length ≥ 3 - buf.length
+    · simp only [hf, and_self, if_true, if_take3, if_drop3, List.nil_append]
+      have hA : (buf ++ src.take (3 - buf.length)).length = 3 := by
+        rw [List.length_append, List.length_take]; omega
+      have e : buf ++ src = (buf ++ src.take (3 - buf.length)) ++ src.drop (3 - buf.length) := by
+        rw [List.append_assoc, List.take_append_drop]
+      rw [e, take3_append _ _ hA, drop3_append _ _ hA,
+        encodeBlock_append (buf ++ List.take (3 - buf.length) src) _ (by rw [hA])]
+    · simp only [hf, if_false, if_take3, if_drop3, List.nil_append]
+      by_cases hb : buf.length = 0
+      · have : buf = [] := List.eq_nil_of_length_eq_zero hb
+        subst this
+        simp
+      · have hs : src.length / 3 * 3 = 0 := by omega
+        have ht : (buf.length + src.length) / 3 * 3 = 0 := by omega
+        simp [hs, ht]
+
+def encFold : EncCtx × List UInt8 → List UInt8 → EncCtx × List UInt8 :=
+  fun (acc : EncCtx × List UInt8) ch =>
+    let (x', o) := encodeUpdate acc.1 ch; (x', acc.2 ++ o)
+
+theorem encFold_spec (chunks : List (List UInt8)) : ∀ (x : EncCtx) (o : List UInt8), x.buf.length < 3 →
+    (chunks.foldl encFold (x, o)).2 ++ encodeFinal (chunks.foldl encFold (x, o)).1
+      = o ++ encodeBlock (x.buf ++ chunks.flatten) := by
+  induction chunks with
+  | nil =>
+    intro x o h
+    simp only [List.foldl_nil, List.flatten_nil, List.append_nil, encodeFinal]
+    by_cases hb : x.buf.length > 0
+    · simp [hb]
+    · have : x.buf = [] := List.eq_nil_of_length_eq_zero (by omega)
+      simp [this, encodeBlock]
+  | cons ch rest ih =>
+    intro x o h
+    rw [List.foldl_cons]
+    have e : encFold (x, o) ch =
+        ({ buf := (x.buf ++ ch).drop ((x.buf ++ ch).length / 3 * 3) },
+          o ++ encodeBlock ((x.buf ++ ch).take ((x.buf ++ ch).length / 3 * 3))) := by
+      simp only [encFold, encodeUpdate_spec x ch h]
+    rw [e, ih _ _ (by simp only [List.length_drop]; omega)]
+    simp only [List.flatten_cons]
+    rw [List.append_assoc, ← encodeBlock_append _ _ (by rw [List.length_take]; omega)]
+    rw [← List.append_assoc (List.take _ _), List.take_append_drop, List.append_assoc]
+
+theorem encodeChunks_eq (chunks : List (List UInt8)) :
+    encodeChunks chunks = encodeBlock chunks.flatten := by
+  have := encFold_spec chunks {} [] (by decide)
+  exact this
+
+/-! ### decode bound -/
+def BoundInv (s : DecSt) (n : Nat) : Prop :=
+  s.i < 4 ∧ ∃ q, s.out.length = 3 * q + (s.i - 1) ∧ 4 * q + s.i ≤ n
+
+theorem decStep_bound (s : DecSt) (ch : UInt8) (n : Nat) (h : BoundInv s n) :
+    BoundInv (decStep s ch) (n + 1) := by
+  obtain ⟨hi, q, h1, h2⟩ := h
+  unfold BoundInv
+  by_cases c1 : a2b ch = IGN
+  · rw [decStep_ign _ _ c1]; exact ⟨hi, q, h1, by omega⟩
+  · by_cases c2 : a2b ch = PAD ∧ s.pad < 2
+    · have hne : PAD ≠ IGN := by decide
+      simp only [decStep, c2.1, c2.2, hne, and_self, if_true, if_false]; exact ⟨hi, q, h1, by omega⟩
+    · by_cases c3 : a2b ch = ERR ∨ s.pad > 0
+      · simp only [decStep, c1, c2, c3, if_true, if_false]; exact ⟨hi, q, h1, by omega⟩
+      · obtain ⟨i, pad, out, cur, err⟩ := s
+        simp only at hi h1 h2 c2 c3
+        match i, hi with
+        | 0, _ =>
+          simp only [decStep, c1, c2, c3, if_false]
+          exact ⟨by omega, q, by simpa using h1, by omega⟩
+        | 1, _ =>
+          simp only [decStep, c1, c2, c3, if_false]
+          exact ⟨by omega, q, by simp at h1 ⊢; omega, by omega⟩
+        | 2, _ =>
+          simp only [decStep, c1, c2, c3, if_false]
+          exact ⟨by omega, q, by simp at h1 ⊢; omega, by omega⟩
+        | 3, _ =>
+          simp only [decStep, c1, c2, c3, if_false]
+          exact ⟨by omega, q + 1, by simp at h1 ⊢; omega, by omega⟩
+
+theorem decLoop_bound (l : List UInt8) : ∀ (s : DecSt) (n : Nat), BoundInv s n →
+    BoundInv (decLoop s l) (n + l.length) := by
+  induction l with
+  | nil => intro s n h; simpa [decLoop] using h
+  | cons ch rest ih =>
+    intro s n h
+    have h' := decStep_bound s ch n h
+    by_cases e : (decStep s ch).err = true
+    · rw [decLoop_cons_err _ _ _ e]
+      obtain ⟨hi, q, h1, h2⟩ := h'
+      exact ⟨hi, q, h1, by simp only [List.length_cons]; omega⟩
+    · rw [decLoop_cons_ok _ _ _ (by simpa using e)]
+      have := ih _ _ h'
+      simpa [Nat.add_assoc, Nat.add_comm 1] using this
+
+theorem decodeBlock_out_bound (src : List UInt8) :
+    (decodeBlock src).2.length ≤ (src.length + 3) / 4 * 3 := by
+  have h := decLoop_bound src {} 0 ⟨by decide, 0, by decide, by decide⟩
+  obtain ⟨hi, q, h1, h2⟩ := h
+  simp only [decodeBlock]
+  omega
+
+/-! ### strictness -/
+
+theorem decLoop_filter (l : List UInt8) : ∀ (s : DecSt), s.err = false →
+    decLoop s l = decLoop s (l.filter (fun ch => a2b ch != IGN)) := by
+  induction l with
+  | nil => intro s _; rfl
+  | cons ch rest ih =>
+    intro s hs
+    by_cases c : a2b ch = IGN
+    · rw [decLoop_cons_ok _ _ _ (by rw [decStep_ign _ _ c]; exact hs), decStep_ign _ _ c]
+      simp only [List.filter_cons, c, bne_self_eq_false, Bool.false_eq_true, if_false]
+      exact ih s hs
+    · have : (a2b ch != IGN) = true := by simpa using c
+      simp only [List.filter_cons, this, if_true]
+      by_cases e : (decStep s ch).err = true
+      · rw [decLoop_cons_err _ _ _ e, decLoop_cons_err _ _ _ e]
+      · have e' : (decStep s ch).err = false := by simpa using e
+        rw [decLoop_cons_ok _ _ _ e', decLoop_cons_ok _ _ _ e']
+        exact ih _ e'
+
+/-- value characters advance the quantum position and keep `pad = 0`, `err = false` -/
+theorem decStep_val_ctl (s : DecSt) (ch : UInt8) (h : (a2b ch).toNat < 64) (hp : s.pad = 0)
+    (hi : s.i < 4) :
+    (decStep s ch).pad = 0 ∧ (decStep s ch).err = s.err ∧ (decStep s ch).i = (s.i + 1) % 4 := by
+  obtain ⟨i, pad, out, cur, err⟩ := s
+  simp only at hp hi
+  match i, hi with
+  | 0, _ => rw [decStep_val0 _ _ h hp rfl]; simp [hp]
+  | 1, _ => rw [decStep_val1 _ _ h hp rfl]; simp [hp]
+  | 2, _ => rw [decStep_val2 _ _ h hp rfl]; simp [hp]
+  | 3, _ => rw [decStep_val3 _ _ h hp rfl]; simp [hp]
+
+theorem decLoop_body (body : List UInt8) : ∀ (s : DecSt) (rest : List UInt8),
+    (∀ ch ∈ body, (a2b ch).toNat < 64) → s.pad = 0 → s.err = false → s.i < 4 →
+    ∃ s', decLoop s (body ++ rest) = decLoop s' rest ∧ s'.pad = 0 ∧ s'.err = false ∧
+      s'.i = (s.i + body.length) % 4 := by
+  induction body with
+  | nil => intro s rest _ hp he hi; exact ⟨s, rfl, hp, he, by simp; omega⟩
+  | cons ch body ih =>
+    intro s rest hb hp he hi
+    obtain ⟨k1, k2, k3⟩ := decStep_val_ctl s ch (hb ch (by simp)) hp hi
+    rw [he] at k2
+    obtain ⟨s', e1, e2, e3, e4⟩ := ih (decStep s ch) rest (fun c hc => hb c (by simp [hc])) k1 k2
+      (by rw [k3]; omega)
+    refine ⟨s', ?_, e2, e3, ?_⟩
+    · rw [List.cons_append, decLoop_cons_ok _ _ _ k2, e1]
+    · rw [e4, k3]; simp only [List.length_cons]; omega
+
+theorem decLoop_pads (p : Nat) (hp2 : p ≤ 2) (s : DecSt) (hp : s.pad = 0) (he : s.err = false) :
+    (decLoop s (List.replicate p 61)).err = false ∧ (decLoop s (List.replicate p 61)).pad = p ∧
+    (decLoop s (List.replicate p 61)).i = s.i := by
+  match p, hp2 with
+  | 0, _ => simp [decLoop, he, hp]
+  | 1, _ =>
+    have h1 : decStep s 61 = { s with pad := s.pad + 1 } := decStep_pad s (by omega)
+    simp [List.replicate, decLoop, h1, he, hp]
+  | 2, _ =>
+    have h1 : decStep s 61 = { s with pad := s.pad + 1 } := decStep_pad s (by omega)
+    have h2 : decStep { s with pad := s.pad + 1 } 61 = { s with pad := s.pad + 1 + 1 } :=
+      decStep_pad _ (by simp [hp])
+    rw [show List.replicate 2 (61 : UInt8) = [61, 61] from rfl,
+      decLoop_cons_ok _ _ _ (by rw [h1]; exact he), h1,
+      decLoop_cons_ok _ _ _ (by rw [h2]; exact he), h2]
+    simp [decLoop, he, hp]
+
+/-- abstract well-formedness, phrased with the decoder's own classification table -/
+def WF (src : List UInt8) : Prop :=
+  ∃ (body : List UInt8) (p : Nat),
+    src.filter (fun ch => a2b ch != IGN) = body ++ List.replicate p 61 ∧
+    (∀ ch ∈ body, (a2b ch).toNat < 64) ∧ p ≤ 2 ∧ (body.length + p) % 4 = 0
+
+/-- a run without error over IGN-free input has the shape body ++ pads -/
+theorem decLoop_shape (l : List UInt8) : ∀ (s : DecSt), (∀ ch ∈ l, a2b ch ≠ IGN) →
+    s.err = false → s.pad ≤ 2 → s.i < 4 → (decLoop s l).err = false →
+    ∃ (body : List UInt8) (p : Nat), l = body ++ List.replicate p 61 ∧
+      (∀ ch ∈ body, (a2b ch).toNat < 64) ∧ (0 < s.pad → body = []) ∧ s.pad + p ≤ 2 ∧
+      (decLoop s l).pad = s.pad + p ∧ (decLoop s l).i = (s.i + body.length) % 4 := by
+  induction l with
+  | nil =>
+    intro s _ he hp hi _
+    exact ⟨[], 0, rfl, by simp, fun _ => rfl, by omega, by simp [decLoop], by simp [decLoop]; omega⟩
+  | cons ch rest ih =>
+    intro s hl he hp hi hfin
+    have hne : a2b ch ≠ IGN := hl ch (by simp)
+    have hl' : ∀ c ∈ rest, a2b c ≠ IGN := fun c hc => hl c (by simp [hc])
+    by_cases e : (decStep s ch).err = true
+    · rw [decLoop_cons_err _ _ _ e] at hfin; rw [e] at hfin; exact absurd hfin (by decide)
+    · have e' : (decStep s ch).err = false := by simpa using e
+      rw [decLoop_cons_ok _ _ _ e'] at hfin ⊢
+      rcases a2b_class ch with hv | hign | ⟨hpad, h61⟩ | herr
+      · -- value character
+        by_cases hp0 : 0 < s.pad
+        · rw [decStep_val_err s ch hv hp0] at e'; exact absurd e' (by decide)
+        · have hp0' : s.pad = 0 := by omega
+          obtain ⟨k1, k2, k3⟩ := decStep_val_ctl s ch hv hp0' hi
+          obtain ⟨body, p, r1, r2, r3, r4, r5, r6⟩ :=
+            ih (decStep s ch) hl' e' (by omega) (by rw [k3]; omega) hfin
+          refine ⟨ch :: body, p, by rw [r1]; rfl, ?_, fun h => absurd h hp0, by omega, by omega, ?_⟩
+          · intro c hc
+            rcases List.mem_cons.mp hc with rfl | hc
+            · exact hv
+            · exact r2 c hc
+          · rw [r6, k3]; simp only [List.length_cons]; omega
+      · exact absurd hign hne
+      · subst h61
+        by_cases hp2 : s.pad < 2
+        · have hs : decStep s 61 = { s with pad := s.pad + 1 } := decStep_pad s hp2
+          rw [hs] at hfin ⊢
+          obtain ⟨body, p, r1, r2, r3, r4, r5, r6⟩ :=
+            ih { s with pad := s.pad + 1 } hl' he (by simp; omega) hi hfin
+          have hb : body = [] := r3 (by simp)
+          subst hb
+          refine ⟨[], p + 1, ?_, by simp, fun _ => rfl, by simp at r4; omega, ?_, ?_⟩
+          · rw [r1]; simp [List.replicate_succ]
+          · rw [r5]; simp; omega
+          · rw [r6]
+        · rw [decStep_pad_err s (by omega)] at e'; exact absurd e' (by decide)
+      · rw [decStep_err s ch herr] at e'; exact absurd e' (by decide)
+
+theorem decodeBlock_strict (src : List UInt8) : (decodeBlock src).1 = 0 ↔ WF src := by
+  have h0 : (decodeBlock src).1 = 0 ↔
+      ((decLoop {} src).err = false ∧ ((decLoop {} src).i + (decLoop {} src).pad) % 4 = 0) := by
+    simp only [decodeBlock]
+    by_cases e : (decLoop {} src).err = true
+    · simp [e]
+    · have e' : (decLoop {} src).err = false := by simpa using e
+      by_cases m : ((decLoop {} src).i + (decLoop {} src).pad) % 4 = 0
+      · simp [e', m]
+      · simp [e', m]
+  rw [h0, decLoop_filter src {} rfl]
+  constructor
+  · rintro ⟨h1, h2⟩
+    obtain ⟨body, p, r1, r2, r3, r4, r5, r6⟩ :=
+      decLoop_shape _ {} (by intro ch hc; simpa using (List.mem_filter.mp hc).2) rfl (by decide) (by decide) h1
+    refine ⟨body, p, r1, r2, by simpa using r4, ?_⟩
+    rw [r5, r6] at h2
+    simp at h2; omega
+  · rintro ⟨body, p, r1, r2, r3, r4⟩
+    rw [r1]
+    obtain ⟨s', e1, e2, e3, e4⟩ := decLoop_body body {} (List.replicate p 61) r2 rfl rfl (by decide)
+    obtain ⟨k1, k2, k3⟩ := decLoop_pads p r3 s' e2 e3
+    rw [e1, k1, k2, k3, e4]
+    simp; omega
+
+/-! ### streaming decoder -/
+
+/-- two decoder states that agree on the control part (`i`, `pad`, `err`) -/
+def Ctl (s t : DecSt) : Prop := s.i = t.i ∧ s.pad = t.pad ∧ s.err = t.err
+
+theorem decStep_ctl (s t : DecSt) (ch : UInt8) (h : Ctl s t) : Ctl (decStep s ch) (decStep t ch) := by
+  obtain ⟨i, pad, out, cur, err⟩ := s
+  obtain ⟨i', pad', out', cur', err'⟩ := t
+  obtain ⟨h1, h2, h3⟩ := h
+  simp only at h1 h2 h3
+  subst h1 h2 h3
+  unfold Ctl decStep
+  simp only
+  by_cases c1 : a2b ch = IGN
+  · simp [c1]
+  · by_cases c2 : a2b ch = PAD ∧ pad < 2
+    · have hne : PAD ≠ IGN := by decide
+      simp [c2.1, c2.2, hne]
+    · by_cases c3 : a2b ch = ERR ∨ pad > 0
+      · simp [c1, c2, c3]
+      · simp only [c1, c2, c3, if_false]
+        split <;> simp
+
+theorem decLoop_ctl (l : List UInt8) : ∀ (s t : DecSt), Ctl s t → Ctl (decLoop s l) (decLoop t l) := by
+  induction l with
+  | nil => intro s t h; exact h
+  | cons ch rest ih =>
+    intro s t h
+    have h' := decStep_ctl s t ch h
+    by_cases e : (decStep s ch).err = true
+    · have e2 : (decStep t ch).err = true := by rw [← h'.2.2]; exact e
+      rw [decLoop_cons_err _ _ _ e, decLoop_cons_err _ _ _ e2]; exact h'
+    · have e1 : (decStep s ch).err = false := by simpa using e
+      have e2 : (decStep t ch).err = false := by rw [← h'.2.2]; exact e1
+      rw [decLoop_cons_ok _ _ _ e1, decLoop_cons_ok _ _ _ e2]; exact ih _ _ h'
+
+theorem decLoop_append (a b : List UInt8) : ∀ (s : DecSt), s.err = false →
+    decLoop s (a ++ b) = if (decLoop s a).err then decLoop s a else decLoop (decLoop s a) b := by
+  induction a with
+  | nil => intro s hs; simp [decLoop, hs]
+  | cons ch rest ih =>
+    intro s hs
+    rw [List.cons_append]
+    by_cases e : (decStep s ch).err = true
+    · rw [decLoop_cons_err _ _ _ e, decLoop_cons_err _ _ _ e]; simp [e]
+    · have e1 : (decStep s ch).err = false := by simpa using e
+      rw [decLoop_cons_ok _ _ _ e1, decLoop_cons_ok _ _ _ e1]; exact ih _ e1
+
+def decFold : DecCtx × List UInt8 × Bool → List UInt8 → DecCtx × List UInt8 × Bool :=
+  fun (acc : DecCtx × List UInt8 × Bool) ch =>
+      if acc.2.2 then acc else
+      let (rc, o, x') := decodeUpdate acc.1 ch
+      (x', acc.2.1 ++ o, rc != 0)
+
+def Accept (s : DecSt) : Prop := s.err = false ∧ (s.i + s.pad) % 4 = 0
+
+theorem accept_ctl (s t : DecSt) (h : Ctl s t) : Accept s ↔ Accept t := by
+  obtain ⟨h1, h2, h3⟩ := h
+  unfold Accept; rw [h1, h2, h3]
+
+theorem decFold_spec (chunks : List (List UInt8)) : ∀ (x : DecCtx) (o : List UInt8) (e : Bool),
+    ((chunks.foldl decFold (x, o, e)).2.2 = false ∧ decodeFinal (chunks.foldl decFold (x, o, e)).1 = 0) ↔
+    (e = false ∧ Accept (decLoop { i := x.num, pad := x.pad, cur := x.buf0 } chunks.flatten)) := by
+  induction chunks with
+  | nil =>
+    intro x o e
+    simp only [List.foldl_nil, List.flatten_nil, decLoop, Accept, decodeFinal]
+    by_cases m : (x.num + x.pad) % 4 = 0
+    · simp [m]
+    · simp [m]
+  | cons ch rest ih =>
+    intro x o e
+    rw [List.foldl_cons]
+    cases e with
+    | true =>
+      have : decFold (x, o, true) ch = (x, o, true) := by simp [decFold]
+      rw [this, ih]; simp
+    | false =>
+      have hstep : decFold (x, o, false) ch =
+          ({ num := (decLoop { i := x.num, pad := x.pad, cur := x.buf0 } ch).i,
+             pad := (decLoop { i := x.num, pad := x.pad, cur := x.buf0 } ch).pad,
+             buf0 := (decLoop { i := x.num, pad := x.pad, cur := x.buf0 } ch).cur },
+           o ++ (decLoop { i := x.num, pad := x.pad, cur := x.buf0 } ch).out,
+           (decLoop { i := x.num, pad := x.pad, cur := x.buf0 } ch).err) := by
+        simp only [decFold, decodeUpdate]
+        by_cases k : (decLoop { i := x.num, pad := x.pad, cur := x.buf0 } ch).err = true
+        · simp [k]
+        · have k' : (decLoop { i := x.num, pad := x.pad, cur := x.buf0 } ch).err = false := by simpa using k
+          simp [k']
+      rw [hstep, ih, List.flatten_cons, decLoop_append _ _ _ rfl]
+      generalize decLoop { i := x.num, pad := x.pad, cur := x.buf0 } ch = s1
+      by_cases k : s1.err = true
+      · simp [k, Accept]
+      · have k' : s1.err = false := by simpa using k
+        simp only [k', true_and, Bool.false_eq_true, if_false]
+        apply accept_ctl
+        apply decLoop_ctl
+        exact ⟨rfl, rfl, k'.symm⟩
+
+theorem decodeBlock_accept (src : List UInt8) : (decodeBlock src).1 = 0 ↔ Accept (decLoop {} src) := by
+  simp only [decodeBlock, Accept]
+  by_cases e : (decLoop {} src).err = true
+  · simp [e]
+  · have e' : (decLoop {} src).err = false := by simpa using e
+    by_cases m : ((decLoop {} src).i + (decLoop {} src).pad) % 4 = 0
+    · simp [e', m]
+    · simp [e', m]
+
+theorem decode_chunking_aux (chunks : List (List UInt8)) :
+    (decodeBlock chunks.flatten).1 = 0 ↔
+      ((chunks.foldl decFold ({}, [], false)).2.2 = false ∧
+        decodeFinal (chunks.foldl decFold ({}, [], false)).1 = 0) := by
+  rw [decodeBlock_accept, decFold_spec]
+  simp only [true_and]
 
 end Munge.Base64
